@@ -313,6 +313,34 @@ def getIeeeCompressed (r : R) (col : List Node) (g : Range) : Option (R × List 
         let r5 := if g.from_ > 0 then skipN r4 ((nb : Int) * ((g.nsub : Int) - g.to)) else r4
         some (r5, zipWithNodes setv col vs)
 
+/-- the `switch (cb->encoding.type)` of the compressed decoder: the column reader for the body of the
+element (after its associated field) -/
+def readBody (ty : DType) (r1 : R) (col2 : List Node) (g : Range) : Option (R × List Node) :=
+  match ty with
+  | .ccitt => getCcittCompressed r1 col2 g
+  | .ieee => getIeeeCompressed r1 col2 g
+  | .numeric | .codetable | .flagtable | .chngRef => getNumericCompressed r1 col2 g
+  | _ => some (r1, col2)
+
+/-- the expansion of one subset copy at the delayed replication node that precedes the factor just
+read (`bufr_expand_node_descriptor` in the `for (i…)` loop of the compressed decoder), folded over
+the copies: `p` = (what the copy has walked, reversed; the factor node; what is left); the lists
+are built reversed -/
+def expStep (T : Tables) (f s4max : Nat) (acc : Except XErr (List (List Node) × List (List Node) × Bool))
+    (p : List Node × Node × List Node) : Except XErr (List (List Node) × List (List Node) × Bool) :=
+  match acc with
+  | .error e => .error e
+  | .ok (ds, ts, inv) =>
+    match p.1 with
+    | rnode :: dprev =>
+      match expandNodeDecode T f (some s4max) rnode p.2.1 p.2.2 with
+      | .error e => .error e
+      | .ok (lst, eflag) =>
+        match lst with
+        | a :: b :: more => .ok ((b :: a :: dprev) :: ds, more :: ts, inv || eflag)
+        | _ => .error .null
+    | [] => .error .null
+
 structure CompSt where
   r : R
   invalid : Bool := false
@@ -352,12 +380,7 @@ def decodeCompressedLoop (T : Tables) (edition : Nat) (s4max : Nat) (g : Range) 
           | none => .ok { st with invalid := true, ddos := ddos1,
                                   dones := List.zipWith (fun n d => n :: d) col1 st.dones, todos := tails }
           | some (r1, col2) =>
-            let body : Option (R × List Node) :=
-              match cb1.enc.type with
-              | .ccitt => getCcittCompressed r1 col2 g
-              | .ieee => getIeeeCompressed r1 col2 g
-              | .numeric | .codetable | .flagtable | .chngRef => getNumericCompressed r1 col2 g
-              | _ => some (r1, col2)
+            let body : Option (R × List Node) := readBody cb1.enc.type r1 col2 g
             match body with
             | none =>
               -- the loop ends here (`node = NULL`), but only after the rest of this iteration: a delayed
@@ -365,20 +388,7 @@ def decodeCompressedLoop (T : Tables) (edition : Nat) (s4max : Nat) (g : Range) 
               -- column reader had set before it gave up
               if st.pendingDelayed ∧ (Desc.f cb.desc = 0 ∧ Desc.x cb.desc = 31) ∧ cb1.enc.type = .numeric then
                 let colP := numericPartial r1 col2 g
-                let stepP := fun (acc : Except XErr (List (List Node) × List (List Node) × Bool))
-                    (p : List Node × Node × List Node) =>
-                  match acc with
-                  | .error e => .error e
-                  | .ok (ds, ts, inv) =>
-                    match p.1 with
-                    | rnode :: dprev =>
-                      match expandNodeDecode T f (some s4max) rnode p.2.1 p.2.2 with
-                      | .error e => .error e
-                      | .ok (lst, eflag) =>
-                        match lst with
-                        | a :: b :: more => .ok ((b :: a :: dprev) :: ds, more :: ts, inv || eflag)
-                        | _ => .error .null
-                    | [] => .error .null
+                let stepP := expStep T f s4max
                 match (List.zip st.dones (List.zip colP tails)).foldl stepP (.ok ([], [], false)) with
                 | .error .null => .ok { st with r := r1, invalid := true, early := true, ddos := ddos1,
                                                 dones := st.dones.map (fun _ => []), todos := tails.map (fun _ => []) }
@@ -397,20 +407,7 @@ def decodeCompressedLoop (T : Tables) (edition : Nat) (s4max : Nat) (g : Range) 
               let isFactor := Desc.f cb.desc = 0 ∧ Desc.x cb.desc = 31
               if st.pendingDelayed ∧ isFactor then
                 -- expand every copy at the delayed replication node that precedes the factor
-                let step := fun (acc : Except XErr (List (List Node) × List (List Node) × Bool))
-                    (p : List Node × Node × List Node) =>
-                  match acc with
-                  | .error e => .error e
-                  | .ok (ds, ts, inv) =>
-                    match p.1 with
-                    | rnode :: dprev =>
-                      match expandNodeDecode T f (some s4max) rnode p.2.1 p.2.2 with
-                      | .error e => .error e
-                      | .ok (lst, eflag) =>
-                        match lst with
-                        | a :: b :: more => .ok ((b :: a :: dprev) :: ds, more :: ts, inv || eflag)   -- built reversed
-                        | _ => .error .null
-                    | [] => .error .null
+                let step := expStep T f s4max
                 match (List.zip st.dones (List.zip col3 tails)).foldl step (.ok ([], [], false)) with
                 -- `return dts` with the subsets allocated but never filled (`subset->data == NULL`):
                 -- an unfilled subset is the empty list
@@ -431,6 +428,20 @@ def decodeCompressedLoop (T : Tables) (edition : Nat) (s4max : Nat) (g : Range) 
                 decodeCompressedLoop T edition s4max g f
                   { r := r2, invalid := inv1, ddos := ddos2, dones := List.zipWith (fun n d => n :: d) col3 st.dones,
                     todos := tails, pendingDelayed := pend }
+
+/-- the compressed branch of `bufr_decode_message_subsets`: one copy of the expanded template per
+subset kept, the lock-step loop, and the subsets put together -/
+def decodeCompressedAll (T : Tables) (edition : Nat) (enforce : Enforce) (fuel s4max : Nat) (bsq : List Node)
+    (err : Bool) (g : Range) (r0 : R) : Except XErr (Option DecodeOut) :=
+  let n1 := g.count
+  let st0 : CompSt := { r := r0, invalid := err, ddos := List.replicate n1 { enforce := enforce },
+                        dones := List.replicate n1 [], todos := List.replicate n1 bsq }
+  if n1 = 0 then .ok (some { subsets := [], invalid := err }) else
+  match decodeCompressedLoop T edition s4max g fuel st0 with
+  | .error e => .error e
+  | .ok st =>
+    let subs := List.zipWith (fun d t => mkvalAll (d.reverse ++ t)) st.dones st.todos
+    .ok (some { subsets := subs, invalid := st.invalid, early := st.early })
 
 /-- `bufr_decode_message_subsets(msg, tables, from, to)` after the template has been built:
 `none` = the C returned NULL. -/
@@ -459,16 +470,6 @@ def decodeData (T : Tables) (fuel : Nat) (t : Template) (enforce : Enforce) (nsu
               { r := r1, invalid := err } [] with
       | .error e => .error e
       | .ok (st, subs) => .ok (some { subsets := subs, invalid := st.invalid, early := st.early })
-    else
-      let g : Range := { nsub := nsub, from_ := from_, to := to }
-      let n1 := g.count
-      let st0 : CompSt := { r := r0, invalid := err, ddos := List.replicate n1 { enforce := enforce },
-                            dones := List.replicate n1 [], todos := List.replicate n1 bsq }
-      if n1 = 0 then .ok (some { subsets := [], invalid := err }) else
-      match decodeCompressedLoop T t.edition s4max g fuel st0 with
-      | .error e => .error e
-      | .ok st =>
-        let subs := List.zipWith (fun d t => mkvalAll (d.reverse ++ t)) st.dones st.todos
-        .ok (some { subsets := subs, invalid := st.invalid, early := st.early })
+    else decodeCompressedAll T t.edition enforce fuel s4max bsq err { nsub := nsub, from_ := from_, to := to } r0
 
 end Bufr
